@@ -220,7 +220,7 @@ def run(tier):
                 okk = True
                 why = "counter increases by %s each round and `counter < chars().count()` is re-established every round" % sorted(steps)
             rep.ob("termination", "%s loop@bb%d" % (k, head), okk, why, b.where(), key="termination|%s" % k, sample=True)
-    rep.floor("loops examined", n_loops, 14)
+    rep.floor("loops examined", n_loops, 8)
     # ---- positive controls
     pos_keys = [b.key for b in prog.by_crate.get("pv_positive", []) if b.kind == "fn"]
     pos_roots = [k for k in pos_keys if prog.bodies[k].d["vis"] == "pub"]
